@@ -100,7 +100,8 @@ PROPS = {
         nontrivial=both(has(r"^t  it\d+"), count_ops(r"^(despawn|remove|insert)", 4)),
     ),
     "C11": dict(
-        profiles=[("graphs", dict(quick=200, thorough=6000), {}), ("storage", dict(quick=40, thorough=600), {})],
+        profiles=[("graphs", dict(quick=200, thorough=6000), {}), ("storage", dict(quick=40, thorough=600), {}),
+                  ("graphs", dict(quick=80, thorough=2500), dict(panic_p=0.2, take_p=0.35))],
         channels=["evdrops", "cdrops"],
         rule="events are destroyed on at least two different paths (completion, consumed, dead target)",
         nontrivial=both(has(r"^ed \d"), either(has(r"^t  took"), has(r"^t h .*@(null|\?)"))),
